@@ -131,6 +131,37 @@ async def run_idle(spec: dict[str, Any], hist: History,
                 return
             await s.fetch_all()
         klass = {'before_arm': 0, 'during_write': 0, 'parked': 0}
+        mover: Session | None = None
+        if spec.get('mover'):
+            # a session that has ANOTHER mailbox selected and moves or
+            # copies messages from there into the idled one
+            mover = Session(env, hist, nid + nwr + 1, sched,
+                            spec['seed'] * 91 + 5)
+            if not await mover.start():
+                return
+            for _ in range(6):
+                await mover.append(b'Other', None)
+            if not (await mover.select(b'Other')).ok:
+                return
+            await mover.fetch_all()
+
+        async def mover_burst(n: int) -> None:
+            assert mover is not None
+            for _ in range(n):
+                if not mover.alive or not mover.shadow.count:
+                    return
+                res = await mover.copy(b'1', b'INBOX',
+                                       move=mover.rng.random() < 0.7)
+                counters['moves_into_idled_mailbox'] = counters.get(
+                    'moves_into_idled_mailbox', 0) + 1
+                if res.ok:
+                    for i in idlers:
+                        if not getattr(i, 'idling', False):
+                            klass['before_arm'] += 1
+                        elif i.conn.draining:
+                            klass['during_write'] += 1
+                        else:
+                            klass['parked'] += 1
         for rnd in range(spec['rounds']):
             burst = spec['burst']
             if spec.get('early_done'):
@@ -192,10 +223,36 @@ async def run_idle(spec: dict[str, Any], hist: History,
                 s.idling = True           # type: ignore[attr-defined]
 
             async def writer_task(s: Session) -> None:
+                if spec.get('flood'):
+                    # very many separate changes while the idler cannot
+                    # keep up (its client reads slowly): no change log is so
+                    # short that the idler may lose some of them
+                    uids = [u for u in s.shadow.uids if u is not None]
+                    for u in uids[:spec['flood']]:
+                        if not s.alive:
+                            return
+                        await s.store(b'%d' % u, True, b'+FLAGS', True,
+                                      [b'\\Deleted'])
+                        res = await s.cmd(b'UID EXPUNGE %d' % u)
+                        if res.ok:
+                            counters['flood_expunges'] = counters.get(
+                                'flood_expunges', 0) + 1
+                            klass['during_write' if any(
+                                i.conn.draining for i in idlers)
+                                else 'parked'] += 1
+                    return
                 await writer_burst(s, burst, klass, idlers)
 
-            await asyncio.gather(*(idler_task(s) for s in idlers),
-                                 *(writer_task(s) for s in writers))
+            extra = [mover_burst(max(1, burst))] if mover is not None \
+                and (burst or rng.random() < 0.5) else []
+            if mover is not None and rng.random() < 0.4:
+                # only the mover acts in this round
+                await asyncio.gather(*(idler_task(s) for s in idlers),
+                                     mover_burst(max(1, burst)))
+            else:
+                await asyncio.gather(*(idler_task(s) for s in idlers),
+                                     *(writer_task(s) for s in writers),
+                                     *extra)
             # from here on: no input to anyone
             await settle(env, loop)
             truth = await probe_dump(env, hist, b'INBOX')
@@ -452,7 +509,17 @@ class C16(Check):
                    'nmsgs': rng.randint(2, 6), 'burst': rng.randint(1, 5),
                    'rounds': rng.randint(1, 3),
                    'sched': idle_schedule(rng, nid),
-                   'early_done': i % 4 == 3}
+                   'early_done': i % 4 == 3,
+                   'mover': i % 5 == 2}
+            if i % 250 == 77:
+                yield {'seed': seed * 1_000_003 + 600_000 + i,
+                       'backend': 'dict', 'nidlers': 1, 'nwriters': 1,
+                       'nmsgs': rng.choice([140, 150, 270]), 'burst': 1,
+                       'rounds': 1, 'flood': rng.choice([129, 135, 260]),
+                       'sched': {'kind': 'starve', 'max_delay': 0,
+                                 'max_drain': 0, 'starve': 1,
+                                 'starve_delay': 3000},
+                       'early_done': False}
             if i % 20 == 11:
                 yield {'kind': 'deleted', 'seed': seed * 1_000_003 + i,
                        'backend': backend, 'nidlers': nid}
@@ -476,7 +543,8 @@ class C16(Check):
         deleted = spec.get('kind') == 'deleted' or str(
             spec.get('script', '')).startswith('mailbox-deleted')
         try:
-            L.run(main, max_steps=80_000 if deleted else 600_000)
+            L.run(main, max_steps=80_000 if deleted else 6_000_000
+                  if spec.get('flood') else 600_000)
         except L.Deadlock:
             hist.aborted = 'deadlock'
         except L.StepLimit:
